@@ -17,11 +17,11 @@ from ..scen import REQ, RESP, hb
 
 LEVEL = 'exploration'
 RULE = ('cases 0..255: one weight each (exhaustive sweep every run) through prioritize() and send_headers(priority_*) with '
-        'random depends_on / exclusive; further cases: refusal probes and PRIORITY frames on idle / open / half-closed / closed / '
+        'random depends_on / exclusive; further cases: refusal probes (each refused call followed by the same calls on a twin that never made it: same bytes, same outcomes) and PRIORITY frames on idle / open / half-closed / closed / '
         'far-future ids of both parities delivered to a client or server in connection states idle and open, followed by a '
         'differential continuation against a twin that did not receive them; non-trivial = round trip compared or neutrality '
         'judged; distinct = hash of the case parameters')
-MINIMA = {'roundtrip_prioritize_checked': 256, 'roundtrip_headers_checked': 256, 'refusals_checked': 500,
+MINIMA = {'roundtrip_prioritize_checked': 256, 'roundtrip_headers_checked': 256, 'refusals_checked': 500, 'follow_up_calls_compared_after_refusal': 500,
           'priority_frames_neutrality_checked': 3000, 'differential_continuations': 600, 'idle_connection_priority_cases': 150, 'roundtrip_headers_near_frame_size': 200}
 
 
@@ -170,6 +170,46 @@ def refusals(rng, rep):
         if res.exc is None or res.frames:
             rep.violation('C23:self-dependency-accepted:send_headers', 'send_headers(%d, priority_depends_on=%d) accepted' % (sid, sid), {})
             return
+    # a refused call leaves no trace: the same follow-up calls give the same bytes and outcomes as on a twin that never
+    # made the refused call (stream table, id watermark and compression context included)
+    for _ in range(6):
+        a, b = scen.Hostile(True, keep_log=True), scen.Hostile(True, keep_log=True)
+        nxt = 1
+        for _ in range(rng.choice([0, 1, 2])):
+            for x in (a, b):
+                x.t.call('send_headers', nxt, REQ + [(b'x-seen', b'%d' % nxt)], end_stream=False)
+            nxt += 2
+        sid = rng.choice([nxt, nxt, nxt + 2] + ([nxt - 2] if nxt > 1 else []))
+        hdrs = REQ + [(b'x-fresh', b'%d' % rng.randrange(1000)), (b'x-seen', b'1')]
+        bad = rng.choice([('send_headers', (sid, hdrs), {'priority_depends_on': sid}),
+                          ('send_headers', (sid, hdrs), {'priority_weight': rng.choice([0, 257, -1])}),
+                          ('send_headers', (sid, hdrs), {'priority_depends_on': sid, 'priority_weight': 256, 'priority_exclusive': True}),
+                          ('prioritize', (sid,), {'depends_on': sid}),
+                          ('prioritize', (sid,), {'weight': rng.choice([0, 257])}),
+                          ('prioritize', (sid,), {'depends_on': sid, 'weight': 1, 'exclusive': True})])
+        res = a.t.call(bad[0], *bad[1], **bad[2])
+        rep.count('refusals_checked')
+        if res.exc is None and sid >= nxt:
+            rep.violation('C23:invalid-priority-accepted:%s' % bad[0], '%s(%s) accepted' % (bad[0], bad[2]), {'call': [bad[0], str(bad[2])]})
+            return
+        if res.exc is None:
+            continue        # (trailers-position call on an open stream: another matter)
+        follow = [('send_headers', (sid, hdrs), {'priority_weight': 7, 'priority_depends_on': 0}),
+                  ('prioritize', (sid,), {'weight': 9, 'depends_on': 0}),
+                  ('send_headers', (max(sid, nxt) + 2, REQ + [(b'x-fresh', b'2'), (b'x-seen', b'3')]), {}),
+                  ('prioritize', (max(sid, nxt) + 8,), {'weight': 200, 'depends_on': sid, 'exclusive': True})]
+        rng.shuffle(follow)
+        for op, args, kw in follow:
+            ra, rb = a.t.call(op, *args, **kw), b.t.call(op, *args, **kw)
+            rep.count('follow_up_calls_compared_after_refusal')
+            if type(ra.exc) is not type(rb.exc) or ra.out != rb.out:
+                rep.violation('C23:refused-priority-call-leaves-a-trace:%s' % bad[0],
+                              'after a refused %s(%s, %s) the call %s%s %s / emits %d bytes; without the refused call it %s / emits %d bytes' %
+                              (bad[0], bad[1][0], bad[2], op, (args[0], kw), 'raises %r' % ra.exc if ra.exc else 'succeeds', len(ra.out),
+                               'raises %r' % rb.exc if rb.exc else 'succeeds', len(rb.out)),
+                              {'refused': [bad[0], bad[1][0], str(bad[2])], 'follow_up': [op, args[0], str(kw)],
+                               'bytes_after_refusal': ra.out.hex()[:400], 'bytes_on_twin': rb.out.hex()[:400]})
+                return
     rep.nontrivial(('refusals', rng.random()))
 
 
